@@ -37,7 +37,8 @@ CHECKS = {
         text="PARTIAL. Same pipeline model, tied byte for byte. Proved: the WHOLE 255-slot location table and the WHOLE 64-slot "
              "unit-property table are the identity in editor form (induction over the slot list; reserved bits clear, last-id "
              "references, owner 0 — editor-prefilled slots included), unmodelled sections "
-             "come back identical in place, the STR section of an unedited map is emitted exactly as loaded. Byte identity of whole editor-form maps and idempotence of the cycle for every "
+             "come back identical in place, the STR section of an unedited map is emitted exactly as loaded; a trigger entry of any of the "
+             "51 + 22 supported types in editor form is written back as exactly the record read, and a gap-free trigger keeps every entry at its position. Byte identity of whole editor-form maps and idempotence of the cycle for every "
              "decodable map (editor-form and non-canonical) are checked on the implementation per map; the three places "
              "where the unchanged code is not byte-identical are recorded findings with replayed witnesses.",
         ref="DESIGN.md 5.10",
